@@ -105,6 +105,17 @@ fn obs(f: &TDigest<LogScale>) -> Vec<String> {
     vec![bits(c.count()).to_string(), bits(c.sum()).to_string(), bits(c.min()).to_string(), bits(c.max()).to_string(), c.n_centroids().to_string(), (c.is_empty() as u8).to_string()]
 }
 
+impl Inst {
+    /// (the positive or the negative products x*w sum beyond f64::MAX, max - min overflows)
+    fn overflow(&self) -> (bool, bool) {
+        let pos: f64 = self.items.iter().filter(|t| t.0 > 0.0).map(|t| t.0 * t.1).sum();
+        let neg: f64 = self.items.iter().filter(|t| t.0 < 0.0).map(|t| t.0 * t.1).sum();
+        let mx = self.items.iter().map(|t| t.0).fold(f64::NEG_INFINITY, f64::max);
+        let mn = self.items.iter().map(|t| t.0).fold(f64::INFINITY, f64::min);
+        (pos.is_infinite() || neg.is_infinite(), !self.items.is_empty() && (mx - mn).is_infinite())
+    }
+}
+
 impl D {
     /// property oracles on the implementation alone (C16 aggregates, C15 shape, C04 size)
     fn audit(&self, ctx: &mut Ctx, i: usize) {
@@ -114,11 +125,26 @@ impl D {
         // centroid mean (x*w)/w is no longer x to within an ulp; precision verdicts on such digests carry the key
         let inst = self.v[i].as_ref().unwrap();
         let lossy = inst.items.iter().any(|(x, w)| *x != 0.0 && (x * w).abs() < f64::MIN_POSITIVE);
+        // known finding near-max-overflow: (a) when the positive or the negative products x*w sum beyond f64::MAX a fused
+        // centroid's sum is +-inf (its mean inf or NaN): every verdict on such a digest carries the key; (b) when only
+        // max - min overflows, cdf's difference of adjacent means is inf and cdf returns NaN: cdf verdicts carry the key
+        // (quantile does not subtract means, so its verdicts stay unkeyed)
+        let (sumover, rangeover) = inst.overflow();
         for line in local.oracle {
-            if lossy && (line.starts_with("X C15") || line.starts_with("X C16") || line.starts_with("X C04")) {
+            let is_td = line.starts_with("X C15") || line.starts_with("X C16") || line.starts_with("X C04");
+            let key = if !is_td {
+                None
+            } else if sumover || (rangeover && line.contains("cdf")) {
+                Some("near-max-overflow")
+            } else if lossy {
+                Some("subnormal-product")
+            } else {
+                None
+            };
+            if let Some(key) = key {
                 let mut t = line.splitn(3, ' ');
                 let (x, p, rest) = (t.next().unwrap(), t.next().unwrap(), t.next().unwrap_or(""));
-                ctx.oracle.push(format!("{} {} kf=subnormal-product {}", x, p, rest));
+                ctx.oracle.push(format!("{} {} kf={} {}", x, p, key, rest));
             } else {
                 ctx.oracle.push(line);
             }
@@ -244,14 +270,14 @@ impl D {
         }
         // C15 shape on a grid; allowance: a few ulps of the data range, scaled by total/smallest weight
         let wmin = inst.items.iter().map(|t| t.1).fold(f64::INFINITY, f64::min);
-        let range = (mx - mn).abs().max(mx.abs()).max(mn.abs());
+        let range = (mx - mn).abs().max(mx.abs()).max(mn.abs()).min(f64::MAX);
         let eps_v = 16.0 * f64::EPSILON * range * (sw / wmin);
         let g = 64;
         let mut last = f64::NEG_INFINITY;
         for k in 0..=g {
             let q = k as f64 / g as f64;
             let v = f.quantile(q);
-            if !(v >= mn - eps_v && v <= mx + eps_v) {
+            if !(v.is_finite() && v >= mn - eps_v && v <= mx + eps_v) {
                 ctx.fail("C15", format!("quantile({})={} outside [min,max]=[{},{}]", q, v, mn, mx));
                 break;
             }
@@ -274,7 +300,11 @@ impl D {
         let mut lastc = 0.0f64;
         let span = if mx > mn { mx - mn } else { 1.0 };
         for k in -4..=(g + 4) {
-            let x = mn + span * (k as f64) / (g as f64);
+            let t = (k as f64) / (g as f64);
+            let x = if span.is_finite() { mn + span * t } else { mn * (1.0 - t) + mx * t };
+            if x.is_nan() {
+                continue;
+            }
             let c = f.cdf(x);
             if !(c >= -eps_c && c <= 1.0 + eps_c) {
                 ctx.fail("C15", format!("cdf({})={} outside [0,1]", x, c));
@@ -319,6 +349,74 @@ impl D {
 
 impl Driver for D {
     fn exec(&mut self, ctx: &mut Ctx, op: &[String]) -> Vec<String> {
+        let i: usize = p(&op[1]);
+        let sumover = op[0] != "new" && self.v.get(i).and_then(|o| o.as_ref()).map_or(false, |inst| inst.overflow().0);
+        if !sumover {
+            return self.exec_inner(ctx, op);
+        }
+        match std::panic::catch_unwind(std::panic::AssertUnwindSafe(|| self.exec_inner(ctx, op))) {
+            Ok(r) => r,
+            Err(_) => {
+                ctx.oracle.push(format!("X C15 kf=near-max-overflow `{}` panics: the products x*w of one sign sum beyond f64::MAX, a fused centroid mean is NaN", op[0]));
+                vec!["panic-kf".into()]
+            }
+        }
+    }
+    fn obs_all(&self, _ctx: &Ctx) -> Vec<Option<Vec<String>>> {
+        // observing clones the digest, and the clone's reads go through the shared scale log: keep the log clean
+        let keep = self.log.borrow().calls.len();
+        let r = self.v.iter().map(|o| o.as_ref().and_then(|i| std::panic::catch_unwind(std::panic::AssertUnwindSafe(|| obs(&i.f))).ok())).collect();
+        self.log.borrow_mut().calls.truncate(keep);
+        r
+    }
+    fn touched(&self, op: &[String]) -> Vec<usize> {
+        match op[0].as_str() {
+            "clone" => vec![p(&op[2])],
+            "ins" | "clear" | "new" => vec![p(&op[1])],
+            // reads merge the backlog (interior mutability) but must not change any observable
+            _ => vec![],
+        }
+    }
+    fn ctor(&self, i: usize) -> Option<Vec<String>> {
+        self.v.get(i).and_then(|o| o.as_ref()).map(|x| {
+            let mut c = x.ctor.clone();
+            c[1] = i.to_string();
+            c
+        })
+    }
+    fn extra_lines(&self) -> Vec<String> {
+        // pair up f / f_inv calls into limit-table lines; raw calls for the scale-function validation
+        let log = self.log.borrow();
+        let mut out = vec![];
+        let mut seen = std::collections::BTreeSet::new();
+        let mut k = 0;
+        while k < log.calls.len() {
+            let (inv, a, n, r) = log.calls[k];
+            let line = format!("S {} {} {} {}", if inv { "i" } else { "f" }, bits(a), n, bits(r));
+            if out.len() < 1200 && seen.insert(line.clone()) {
+                out.push(line);
+            }
+            if !inv && k + 1 < log.calls.len() {
+                let (inv2, a2, n2, r2) = log.calls[k + 1];
+                if inv2 && n2 == n && (a2 == r + 1.0 || (a2.is_nan() && (r + 1.0).is_nan())) {
+                    let l = format!("L {} {} {}", n, bits(a), bits(r2));
+                    if out.len() < 1200 && seen.insert(l.clone()) {
+                        out.push(l);
+                    }
+                    k += 2;
+                    continue;
+                } else {
+                    out.push(format!("X C04 scale-call pattern: f({}, {}) not followed by f_inv(f+1, n)", a, n));
+                }
+            }
+            k += 1;
+        }
+        out
+    }
+}
+
+impl D {
+    fn exec_inner(&mut self, ctx: &mut Ctx, op: &[String]) -> Vec<String> {
         let i: usize = p(&op[1]);
         match op[0].as_str() {
             "new" => {
@@ -382,56 +480,5 @@ impl Driver for D {
             }
             _ => panic!("td: unknown op {:?}", op),
         }
-    }
-    fn obs_all(&self, _ctx: &Ctx) -> Vec<Option<Vec<String>>> {
-        // observing clones the digest, and the clone's reads go through the shared scale log: keep the log clean
-        let keep = self.log.borrow().calls.len();
-        let r = self.v.iter().map(|o| o.as_ref().map(|i| obs(&i.f))).collect();
-        self.log.borrow_mut().calls.truncate(keep);
-        r
-    }
-    fn touched(&self, op: &[String]) -> Vec<usize> {
-        match op[0].as_str() {
-            "clone" => vec![p(&op[2])],
-            "ins" | "clear" | "new" => vec![p(&op[1])],
-            // reads merge the backlog (interior mutability) but must not change any observable
-            _ => vec![],
-        }
-    }
-    fn ctor(&self, i: usize) -> Option<Vec<String>> {
-        self.v.get(i).and_then(|o| o.as_ref()).map(|x| {
-            let mut c = x.ctor.clone();
-            c[1] = i.to_string();
-            c
-        })
-    }
-    fn extra_lines(&self) -> Vec<String> {
-        // pair up f / f_inv calls into limit-table lines; raw calls for the scale-function validation
-        let log = self.log.borrow();
-        let mut out = vec![];
-        let mut seen = std::collections::BTreeSet::new();
-        let mut k = 0;
-        while k < log.calls.len() {
-            let (inv, a, n, r) = log.calls[k];
-            let line = format!("S {} {} {} {}", if inv { "i" } else { "f" }, bits(a), n, bits(r));
-            if out.len() < 1200 && seen.insert(line.clone()) {
-                out.push(line);
-            }
-            if !inv && k + 1 < log.calls.len() {
-                let (inv2, a2, n2, r2) = log.calls[k + 1];
-                if inv2 && n2 == n && (a2 == r + 1.0 || (a2.is_nan() && (r + 1.0).is_nan())) {
-                    let l = format!("L {} {} {}", n, bits(a), bits(r2));
-                    if out.len() < 1200 && seen.insert(l.clone()) {
-                        out.push(l);
-                    }
-                    k += 2;
-                    continue;
-                } else {
-                    out.push(format!("X C04 scale-call pattern: f({}, {}) not followed by f_inv(f+1, n)", a, n));
-                }
-            }
-            k += 1;
-        }
-        out
     }
 }
